@@ -80,6 +80,24 @@ def neg_cases(tier, seed):
     for _ in range(5000 if tier == "quick" else 50000):   # other 1-3 digit weights
         es = [(rng.choice(CODINGS[:3]), rng.choice(allw)) for _ in range(rng.randrange(1, 4))]
         add(es, rng.choice(STYLES))
+    # every pair of adjacent three-digit qvalues, both ways round and equal (the comparison is exact in
+    # thousandths), with the 1- and 2-digit spellings where they exist
+    def qtok(v):
+        if v == 1000:
+            return rng.choice(["1", "1.0", "1.000"])
+        t = "0.%03d" % v
+        forms = [t]
+        if v % 10 == 0:
+            forms.append(t[:-1])
+        if v % 100 == 0:
+            forms.append(t[:-2])
+        return rng.choice(forms)
+    for v in range(0, 1000):
+        other = rng.choice(["identity", "*"])
+        for g, o in ((v, v + 1), (v + 1, v), (v, v)):
+            es = [("gzip", (qtok(g), g)), (other, (qtok(o), o))]
+            rng.shuffle(es)
+            add(es, rng.choice(STYLES))
     # every string of up to 4 symbols, read by the TLA+ transcription of the grammar (HdrLex.tla)
     import lexgen
     for s_, a in lexgen.cases("ae", 4):
